@@ -251,7 +251,9 @@ class SymGen:
                 raise Unsupported("dict of optionals")
             return VOpt(self.leaf(z3.BoolSort(), name + "{}?absent", args + (kt,)), inner)
 
-        return VDict([], base_get=get, ident=name)
+        d = VDict([], base_get=get, ident=name)
+        d.key_ann = (k_ann, module)  # type: ignore  # for iteration over the items of a symbolic dict
+        return d
 
     def mk_set(self, elem_ann: Any, module: Module, name: str, args: Tuple[Any, ...]) -> VSet:
         def has(key: V) -> Any:
